@@ -49,6 +49,19 @@ impl DodecahedronProjection {
         THREAD_DODECA.with(|ptr| unsafe { &mut **ptr })
     }
 
+    /// Read-only view of which memo slots (30 face triangles, 240 spherical triangles) are
+    /// currently filled in this instance
+    #[cfg(feature = "verif")]
+    pub fn verif_memo_slots(&self) -> (Vec<bool>, Vec<bool>) {
+        (
+            self.face_triangles.iter().map(|t| t.is_some()).collect(),
+            self.spherical_triangles
+                .iter()
+                .map(|t| t.is_some())
+                .collect(),
+        )
+    }
+
     /// Projects spherical coordinates to face coordinates using dodecahedron projection
     pub fn forward(&mut self, spherical: Spherical, origin_id: OriginId) -> Result<Face, String> {
         let origins = get_origins();
